@@ -38,7 +38,9 @@ def register(rng, kind: str) -> int:
     lo, hi = ce.RANGES[kind]
     r = rng.random()
     if r < 0.35:
-        pool = [lo, lo + 1, hi, hi - 1, 0, 1, 999, 1000, 1001, 57, 100, 255, 256, 32767, 32768, 65535, 65536, -1, -2]
+        pool = [lo, lo + 1, hi, hi - 1, 0, 1, 999, 1000, 1001, 57, 100, 255, 256, 32767, 32768, 65535, 65536, -1, -2,
+                # octets that mean something to the *other* parsers: CR LF, '(' ')', '/', '!', flag, escape, tags
+                0x0D0A, 0x0A0D, 0x0A, 0x0D, 0x2829, 0x28292829, 0x2F, 0x21, 0x7E, 0x7D, 0x7E7E, 0x0906, 0x0C07, 0xFF, 0xFFFF, 0x2E, 0x3A]
         v = rng.choice(pool)
         return min(max(v, lo), hi)
     if r < 0.6:
